@@ -17,8 +17,10 @@ CONFIG = dict(
           "identify_pytorch_file_format is called twice under file-event monitoring and compared with the "
           "documented table in its documented precedence, with torch's own zip loader as second judge for "
           "'at least PyTorch v1.3'; (b) create_polyglot on all ordered pairs of the real files (incl. "
-          "unidentifiable ones and pairs with no polyglot) in a fresh working directory: inputs' sha256, the "
-          "directory listing after return or raise, and identification of the product; (c) crash points: for "
+          "unidentifiable ones and pairs with no polyglot) in a fresh working directory, with the default output name and "
+          "with a bare name, a name in a sub-directory, a ./ name and an absolute name outside the working directory: "
+          "inputs' sha256, the recursive listing of the working and output directories after return or raise, and "
+          "identification of the product; (c) crash points: for "
           "every file-system audit event of each clean create_polyglot run, the run is repeated with an "
           "OSError injected at that event (fault enumeration) and the same after-state is required.  A case "
           "is one distinct (file bytes) or (pair, failpoint); non-trivial = a zip with at least one marker, "
@@ -153,18 +155,32 @@ def identify_case(ctx, mods, label, path, markers=None, at_offset0=True):
     return r1
 
 
-def polyglot_case(ctx, mods, files, a, b, failpoint_k=None, clean_events=None):
+def _tree(root):
+    out = []
+    for dp, dns, fns in os.walk(root):
+        for n in dns + fns:
+            out.append(os.path.relpath(os.path.join(dp, n), root))
+    return sorted(out)
+
+
+def polyglot_case(ctx, mods, files, a, b, failpoint_k=None, clean_events=None, outname=None):
     """One create_polyglot run in a fresh working directory.  Returns list of fs events (clean run)."""
     torch, polyglot = mods
     agg = ctx.agg
     wd = os.path.join(ctx.scratch, "polywd")
     shutil.rmtree(wd, ignore_errors=True)
     os.makedirs(wd)
+    outside = os.path.join(ctx.scratch, "polyout")
+    shutil.rmtree(outside, ignore_errors=True)
+    os.makedirs(outside)
+    os.makedirs(os.path.join(wd, "sub", "dir"))
+    out_arg = {None: None, "bare": "custom.bin", "subdir": os.path.join("sub", "dir", "poly.out"),
+               "dot": os.path.join(".", "poly.out"), "absolute": os.path.join(outside, "poly.out")}[outname]
     pa, pb = files[a], files[b]
-    key = h(f"poly|{a}|{b}|{failpoint_k}|" + sha(pa) + sha(pb))
-    if not agg.case(key, True, {"polyglot_inputs": [a, b], "failpoint": failpoint_k}):
+    key = h(f"poly|{a}|{b}|{failpoint_k}|{outname}|" + sha(pa) + sha(pb))
+    if not agg.case(key, True, {"polyglot_inputs": [a, b], "failpoint": failpoint_k, "output_name": outname}):
         return None
-    w = {"inputs": [a, b], "failpoint": failpoint_k}
+    w = {"inputs": [a, b], "failpoint": failpoint_k, "output_name": out_arg}
     sa, sb = sha(pa), sha(pb)
     fired = []
 
@@ -193,7 +209,7 @@ def polyglot_case(ctx, mods, files, a, b, failpoint_k=None, clean_events=None):
     try:
         with monitor.Recording(failpoint=fp) as rec:
             try:
-                res = quiet(polyglot.create_polyglot, pa, pb, None, False)
+                res = quiet(polyglot.create_polyglot, pa, pb, out_arg, False)
                 outcome = ("ret", res)
             except BaseException as e:
                 outcome = ("exc", e)
@@ -210,8 +226,12 @@ def polyglot_case(ctx, mods, files, a, b, failpoint_k=None, clean_events=None):
     agg.hist("polyglot_outcomes", ("found" if outcome[1] else "none") if outcome[0] == "ret" else type(outcome[1]).__name__)
     if sha(pa) != sa or sha(pb) != sb:
         agg.violation("polyglot-modifies-input", "an input file changed", w)
-    left = sorted(os.listdir(wd))
-    allowed = {"polyglot.pt", "polyglot.mar.pt", "polyglot.mar.tar"}
+    left = [x for x in _tree(wd) if x not in ("sub", os.path.join("sub", "dir"))] + \
+           [os.path.join("<outside>", x) for x in _tree(outside)]
+    if out_arg is None:
+        allowed = {"polyglot.pt", "polyglot.mar.pt", "polyglot.mar.tar"}
+    else:
+        allowed = {os.path.join("<outside>", "poly.out") if outname == "absolute" else os.path.normpath(out_arg)}
     stray = [x for x in left if x not in allowed]
     if stray:
         how = "returned" if outcome[0] == "ret" else f"raised {type(outcome[1]).__name__}"
@@ -228,7 +248,8 @@ def polyglot_case(ctx, mods, files, a, b, failpoint_k=None, clean_events=None):
         else:
             fa = quiet(polyglot.identify_pytorch_file_format, pa)
             fb = quiet(polyglot.identify_pytorch_file_format, pb)
-            fp_ = quiet(polyglot.identify_pytorch_file_format, os.path.join(wd, prod[0]))
+            fp_ = quiet(polyglot.identify_pytorch_file_format,
+                        os.path.join(outside, "poly.out") if outname == "absolute" else os.path.join(wd, prod[0]))
             need = [fa[0], fb[0]] if fa and fb else []
             if any(x not in fp_ for x in need):
                 agg.violation("polyglot-product-format", f"product identified as {fp_}, expected to include {need}", w)
@@ -242,6 +263,7 @@ def polyglot_case(ctx, mods, files, a, b, failpoint_k=None, clean_events=None):
         elif n in FS_KINDS:
             events.append((n, s))
     shutil.rmtree(wd, ignore_errors=True)
+    shutil.rmtree(outside, ignore_errors=True)
     return events
 
 
@@ -322,6 +344,8 @@ def run_shard(ctx):
         events = polyglot_case(ctx, mods, files, a, b)
         if events is None:
             continue
+        for outname in ("bare", "subdir", "dot", "absolute"):
+            polyglot_case(ctx, mods, files, a, b, outname=outname)
         interesting = {("zip", "jit"), ("jit", "zip"), ("mar", "legacy"), ("legacy", "mar"), ("mar", "tar"), ("tar", "mar"),
                        ("text", "zip"), ("zip", "text"), ("zip", "zip2"), ("legacy", "legacy")}
         if ctx.tier == "quick" and (a, b) not in interesting:
